@@ -418,15 +418,16 @@ class Machine:
         return max(4, self.budget // (4 ** (slot.maxdepth - depth)))
 
     # -- operations --------------------------------------------------------------------
-    def step(self):
+    def step(self, op=None):
         ch = self.ch
-        ops = [op for op in OPS if self.weights[op] > 0 and (op == "new" or self.slots)]
-        if not self.slots:
-            op = "new"
-        else:
-            op = ops[ch.weighted("op", [self.weights[o] for o in ops])]
-        if op == "new" and len(self.slots) >= 4:
-            op = "add_circle"
+        if op is None:
+            ops = [op for op in OPS if self.weights[op] > 0 and (op == "new" or self.slots)]
+            if not self.slots:
+                op = "new"
+            else:
+                op = ops[ch.weighted("op", [self.weights[o] for o in ops])]
+            if op == "new" and len(self.slots) >= 4:
+                op = "add_circle"
         self.out.stats["op:" + op] += 1
         try:
             getattr(self, "op_" + op)()
@@ -921,3 +922,64 @@ def shrink_hints(labels, values):
     cand = [0 if l.startswith("probe_") else v for l, v in zip(labels, values)]
     if cand != values:
         yield cand
+
+
+# ------------------------------------------------------------------------------------------
+# bounded-exhaustive histories over a small alphabet (fixed cases of C08)
+# ------------------------------------------------------------------------------------------
+_CIRC = {"depth_arg": 0, "special_centre": 3, "whole_sky": 0}
+ALPHABET = (
+    ("add_circle", dict(_CIRC, slot=0, centre_i=0, radius_f=3)),                 # a  #0 += small circle at (0,0)
+    ("add_circle", dict(slot=0, depth_arg=6, coarser_by=0, special_centre=3, centre_i=3, radius_f=2, whole_sky=0)),  # b coarser depth, RA wrap
+    ("add_pixels", dict(slot=0, pix_at_maxdepth=0, pix_coarser=0, npixels=0, pix_base=9, pix_run=1)),   # c  coarse pixel, no renorm
+    ("add_pixels_renorm", dict(slot=0, pix_at_maxdepth=1, npixels=5, pix_base=36, pix_run=1, pix_array=0)),  # d
+    ("union", dict(slot_a=0, slot_b=0)),                                         # e  #0 |= #1 (same depth)
+    ("union", dict(slot_a=0, slot_b=1)),                                         # f  #0 |= #2 (finer)
+    ("union", dict(slot_a=2, slot_b=0)),                                         # g  #2 |= #0 (coarser)
+    ("without", dict(slot_a=0)),                                                 # h  #0 -= #1
+    ("intersect", dict(slot_a=0)),                                               # i
+    ("symdiff", dict(slot_a=0)),                                                 # j
+    ("q_get_demoted", dict(slot=0)),                                             # k
+    ("q_sky_within", dict(slot=0, nq=2, degin=0)),                               # l
+    ("q_get_area", dict(slot=0, area_deg=1)),                                    # m
+    ("save_load", dict(slot=0, save_via=0)),                                     # n
+    ("restart", dict()),                                                         # o
+    ("alias", dict(slot=0, alias_op=0)),                                         # p  #0 |= #0
+)
+LETTERS = "abcdefghijklmnop"
+
+
+def run_scripted(out, word, depth=3):
+    """One history: a fixed three-region setup (#0, #1 of ``depth``, #2 one level finer) followed by the operations
+    named by ``word`` (letters of ALPHABET), each with fixed arguments.  Returns the machine (violations in ``out``)."""
+    from simkit.choices import Choices
+    zero = Choices(replay=[])
+    m = Machine(zero, out, depth, depth, 0)
+    try:
+        setup_script = (
+            ("new", dict(depth=depth - m.min_depth)), ("new", dict(depth=depth - m.min_depth)),
+            ("add_circle", dict(_CIRC, slot=0, centre_i=0, radius_f=4)),
+            ("add_circle", dict(_CIRC, slot=1, centre_i=4, radius_f=4)),
+            ("add_circle", dict(_CIRC, slot=1, centre_i=0, radius_f=2)),
+        )
+        for op, force in setup_script:
+            m.ch = Choices(replay=[], force=force)
+            if not m.step(op):
+                return m
+        Region = _state["Region"]
+        m.slots.append(Slot(Region(maxdepth=depth + 1), depth + 1, set()))
+        m.trace.append("new(maxdepth=%d)" % (depth + 1))
+        m.ch = Choices(replay=[], force=dict(_CIRC, slot=2, centre_i=0, radius_f=5))
+        if not m.step("add_circle"):
+            return m
+        for letter in word:
+            op, force = ALPHABET[LETTERS.index(letter)]
+            m.ch = Choices(replay=[], force=force)
+            if not m.step(op):
+                break
+        out.stats["runs"] += 1
+        out.stats["ops"] += len(m.trace)
+        out.fps.add(_hist_fp(m.trace))
+    finally:
+        m.close()
+    return m
